@@ -4,6 +4,8 @@
 #include <cocls/async.h>
 #include <cocls/mutex.h>
 #include <cocls/generator.h>
+#include <cocls/callback_awaiter.h>
+#include <cocls/coro_storage.h>
 using namespace cocls;
 struct MO { int v; MO(int v):v(v){} MO(MO&&)=default; MO(const MO&)=delete; };
 struct Big { long a[8]; };
@@ -29,4 +31,11 @@ void drv(promise<int> &pi, promise<void> &pv, promise<MO> &pm, promise<int&> &pr
   auto g = gen(); (void)(bool)g.next(); g.value(); for (auto it = g.begin(); it != g.end(); ++it) { (void)*it; break; } g.done(); (void)(bool)g;
   auto g2 = gen2(); int a = 1; (void)(bool)g2.next(a);
   co(f2, mx).detach(); cov(fv, pi).detach(); (void)pv; (void)pm; (void)pr;
+  // awaiting by the callback awaiter, frame in a caller-supplied buffer, callbacks with small and large captures, value and void results
+  static char buf1[1024], buf2[1024], buf3[1024]; placement_alloc st1(buf1), st2(buf2), st3(buf3);
+  struct BigCb { long pad[16]; void operator()(await_result<int> r) const { if (r) (void)*r; } };
+  callback_await_alloc<placement_alloc, future<int> &>(st1, BigCb{}, f2);
+  callback_await_alloc<placement_alloc, future<int> &>(st2, [&ref](await_result<int> r) { if (r) ref = *r; }, f2);
+  struct BigCbV { long pad[16]; void operator()(await_result<void> r) const { r.get(); } };
+  callback_await_alloc<placement_alloc, future<void> &>(st3, BigCbV{}, fv);
 }
